@@ -80,6 +80,27 @@ def run(rep):
             meta.append((name, "skip#%d short" % i, "skipmode-honest"))
             rcases.append(readcore.read_case(arc, source=(0,), rplan=[bs] * (nblocks + 1), has_skip=1, has_seek=1, faults=[(2, i, -1)], consume=dump, noraw=1))
             meta.append((name, "seek#%d fails" % i, "seek"))
+    # ---- filters with an end-of-stream marker, read through the raw format (nothing behind them can mask a cut)
+    EOS_FILTERS = ["gzip", "bzip2", "xz", "lzip", "zstd", "lz4", "uuencode", "b64encode"]
+    body = bytes(((i * 131) ^ (i >> 7)) & 0xff if (i // 5000) % 2 else 65 + (i % 7) for i in range(350000 if not quick else 120000))
+    rawspec = [vfmt(["raw", f, "bzip2:compression-level=1" if f == "bzip2" else "", 512,
+                     [["data", readcore.AE_IFREG, 0o644, 0, 0, 0, body, b"", b"", 0, []]]]) for f in EOS_FILTERS]
+    rc0, mlines0, merr0 = vlib.run_exe(mk, vlib.write_cases(rawspec, "rawmk.cases"), timeout=600)
+    raw_arcs = []
+    for f, l in zip(EOS_FILTERS, mlines0):
+        v = vparse(l)
+        if v[0] >= -20 and v[-2] >= -20:
+            raw_arcs.append(("raw+" + f, v[-1]))
+    for name, arc in raw_arcs:
+        L = len(arc)
+        rcases.append(readcore.read_case(arc, source=(0,), rplan=[], consume=dump)); meta.append((name, "intact", None))
+        offs = sorted(set([1, L - 1, L - 2, L - 4, L - 8, L - 12, L // 2, L // 3] + [r.randrange(1, L) for _ in range(6 if quick else 60)]))
+        for cut in offs:
+            if cut < 64 or cut >= L:
+                continue      # below 64 bytes the filter signature itself is cut: the raw format then (by design) delivers the bytes as they are
+            bs = r.choice([1 << 20, 10240, 4096])
+            rcases.append(readcore.read_case(arc[:cut], source=(0,), rplan=[bs] * (cut // bs + 2), consume=dump))
+            meta.append((name, "truncate@%d" % cut, "eos"))
     import C01
     lines = C01.run_resilient(rep, readall, rcases, [(m[0], m[1]) for m in meta], per_batch_timeout=900 if quick else 6000)
     intact, intact_skip = {}, {}
@@ -111,6 +132,19 @@ def run(rep):
             if kind == "skipmode-honest" and not hit and (len(entries_of(d)) != len(entries_of(base)) or final != EOF):
                 hit = ("short-skip-loses-entries", "%s: an honest short skip changed the entry sequence (%d of %d entries, final %d)"
                        % (what, len(entries_of(d)), len(entries_of(base)), final))
+        elif kind == "eos":
+            # the filter has an end-of-stream marker: fewer bytes than the intact run must come with an error somewhere
+            hit = None
+            be, ce = entries_of(base), entries_of(d)
+            full = be[0][12] if be and isinstance(be[0], list) and len(be[0]) > 12 else b""
+            got = ce[0][12] if ce and isinstance(ce[0], list) and len(ce[0]) > 12 and isinstance(ce[0][12], bytes) else b""
+            if not full.startswith(got):
+                hit = ("invented-data", "%s: delivered bytes are not a prefix of the intact stream" % what)
+            elif len(got) < len(full):
+                statuses = [final] + [e[0] for e in ce if isinstance(e, list)] + [e[10] for e in ce if isinstance(e, list) and len(e) > 10]
+                if all(x >= 0 for x in statuses):
+                    hit = ("filter-cut-clean-end", "%s: %d of %d bytes delivered and every status is OK/EOF although the filter has an end-of-stream marker"
+                           % (what, len(got), len(full)))
         elif kind == "seek":
             hit = check_prefix(base, d, what) if base[-1] == d[-1] else None
         else:
